@@ -61,4 +61,31 @@ template <class N, std::size_t ARITY, class OUT = TS<Int>> struct FnN {
         return f;
     }
 };
+
+// WiredFn for a hand-written sub-graph: W::wire(Wiring&, std::span<const WiringPortRef>) -> WiringPortRef wires any
+// number of nodes over the ARITY boundary ports and returns the output port.
+template <class W, std::size_t ARITY, class OUT = TS<Int>> struct FnW {
+    static CompiledSubGraph compile(const void *, Wiring *parent, std::span<const TSValueTypeMetaData *const> s) {
+        Wiring cw = parent ? parent->child_wiring() : Wiring{WiringKind::SubGraph};
+        std::array<WiringPortRef, ARITY> ports;
+        std::vector<const TSValueTypeMetaData *> schemas;
+        for (std::size_t i = 0; i < ARITY; i++) {
+            ports[i] = WiringPortRef::boundary_source(i, {}, s[i]);
+            schemas.push_back(s[i]);
+        }
+        WiringPortRef out = W::wire(cw, std::span<const WiringPortRef>{ports.data(), ports.size()});
+        return std::move(cw).finish_subgraph(out, std::move(schemas));
+    }
+    static WiringPortRef wire_(const void *, Wiring &w, std::span<const WiringPortRef> a) { return W::wire(w, a); }
+    static const TSValueTypeMetaData *out(const void *) { return schema_descriptor<OUT>::ts_meta(); }
+    static WiredFn make() {
+        static WiredFnOps ops{.wire = &wire_, .compile = &compile, .output_schema = &out};
+        WiredFn f;
+        f.ops = &ops;
+        f.arity = ARITY;
+        f.has_output = true;
+        f.identity = &typeid(W);
+        return f;
+    }
+};
 }  // namespace hk
